@@ -292,9 +292,16 @@ def _do(kind, st, o):
     return None
 
 
+def values(kind, st):
+    f = fields(kind, st)
+    return f[1:3] + f[5 if kind in ("fin", "md", "nak") else 4:]
+
+
 def do_op(kind, st, o):
     if not o:
         return [1, 97]
+    if o[0] == 122:
+        return enchunk(values(kind, st))
     try:
         r = _do(kind, st, o)
         return [0] if r is None else r
@@ -757,6 +764,11 @@ def oracle(case, ires, sres):
                     return ("C11/%s.history/pack" % name, "%s after %s packs %s, the layout of its current values is %s"
                             % (who, hist, e[:60], exp[:60]))
                 continue
+            if o[0] == 122:
+                if e != enchunk([v.ids, v.flags] + exp_fields(v)):
+                    return ("C11/%s.history/values" % name, "%s (path %d) after %s exposes %s, the values assigned are %s"
+                            % (who, path, hist, str(chunks(e))[:300], str([v.ids, v.flags] + exp_fields(v))[:300]))
+                continue
             if kind == "nak" and o[0] == 20:
                 # the PDU with n segment requests fits into the given size, the one with n + 1 does not
                 if hdr_ok(v) and v.ptype == 0:
@@ -847,7 +859,8 @@ def gen_generic(rng, v_large=None):
         return [107, rng.randrange(256 ** w), w, rng.randrange(256 ** w2), w2]
     if r < 0.73: return [108, rng.randrange(2)]
     if r < 0.75: return [109, rng.randrange(2)]
-    if r < 0.86: return [120]
+    if r < 0.84: return [120]
+    if r < 0.88: return [122]
     if r < 0.92: return [121]
     if r < 0.98: return [130, rng.randrange(5), rng.randrange(2)]
     w = rng.choice(WIDTHS)
@@ -1064,18 +1077,19 @@ def limit_cases(kind, rng, big):
             cases.append((OPS[kind], c + [[121], [12, 3, 4], [11], [121], [12, 5, 6], [11], [121], [13], [11], [121]] + tail))
             # file flag NORMAL -> LARGE doubles the requests: refused beyond half the limit, nothing changed
             c = [ids, [flags[0], 0, crc, flags[3], flags[4]], desc, [1, 2], [1] + C._rand_segs(rng, 0, (lim + 1) // 2 + large)]
-            cases.append((OPS[kind], c + [[101, 1, 0], [121], [11], [121], [13], [13], [11], [101, 1, 0], [121]] + shrink))
+            cases.append((OPS[kind], c + [[101, 1, 0], [121], [122], [11], [121], [13], [13], [11], [101, 1, 0], [121]] + shrink))
         elif kind == "md":
             big_tlv = [2] + [7] * 255
             n = 253          # 253 options: one more fits, two more do not
             c = [ids, flags, desc, [0, 0, 0], [1] + [0x61] * 100, [1] + [0x62] * 100, [1] + enchunk([big_tlv] * n)]
             cases.append((OPS[kind], c + [[121], [12] + big_tlv, [11], [121], [12] + big_tlv, [11], [121], [13], [11], [121],
-                                          [5] + [0x63] * 255, [121], [5] + [0x63] * 140, [121]] + ([[120]] if big else shrink)))
+                                          [5] + [0x63] * 255, [121], [3] + [0x64] * 255, [121], [122], [5] + [0x63] * 140, [121],
+                                          [3] + [0x64] * 110, [121]] + ([[120]] if big else shrink)))
         else:
             big_resp = [0, 0, 240, 0] + [0x61] * 240 + [9] * 12
             n = 253          # 253 responses of 257 octets: one more fits, two more do not
             c = [ids, flags, desc, [4, 0, 1], [0], [1] + enchunk([big_resp] * n)]
             cases.append((OPS[kind], c + [[121], [12] + big_resp, [11], [121], [12] + big_resp, [11], [121], [13], [11], [121],
-                                          [1] + [5] * 255, [121], [4, 0], [1] + [5] * 255, [4, 4], [121], [0], [4, 4], [121]]
+                                          [1] + [5] * 255, [121], [4, 0], [1] + [5] * 255, [4, 4], [121], [122], [0], [4, 4], [121]]
                           + ([[120]] if big else shrink)))
     return cases
